@@ -53,6 +53,9 @@ if PARAMS.get("request") == "case-twin":
     # the request differs from what the file already declares only in letter case
     NEW_C = "SPDX-FileCopyrightText: 2019 OLD HOLDER"
     NEW_F = "OLD CONTRIBUTOR"
+if PARAMS.get("request") == "verbatim-notice":
+    # a --copyright value that already is a notice, with text in front of its copyright word: kept verbatim
+    NEW_C = "Portions Copyright 2019 Jane Doe"
 if PARAMS.get("request") == "terminator-inside":
     # the holder contains the style's multi-line terminator in the middle of its text
     NEW_C = "SPDX-FileCopyrightText: 2020 Maintainers of src/" + (STYLE.MULTI_LINE.end or "*/") + "/vendor"
@@ -197,7 +200,7 @@ def new_info():
         return ReuseInfo(contributor_lines={NEW_F})
     if REQUEST == "licence-only":
         return ReuseInfo(spdx_expressions={ex._LICENSING.parse(NEW_L)})
-    if REQUEST in ("copyright-only", "two-years"):
+    if REQUEST in ("copyright-only", "two-years", "verbatim-notice"):
         return ReuseInfo(copyright_lines={NEW_C})
     if REQUEST == "terminator-inside":
         return ReuseInfo(spdx_expressions={ex._LICENSING.parse(NEW_L)}, copyright_lines={NEW_C})
@@ -279,7 +282,7 @@ def acc_story(k0, k1, k2, k3, final_nl):
     after = read(out)
     if after is None:
         return "the annotated file cannot be read any more", items, text, out, before, after
-    want_c = set(before[0]) | ({NEW_C} if REQUEST in ("full", "copyright-only", "two-years", "case-twin", "terminator-inside") else set())
+    want_c = set(before[0]) | ({NEW_C} if REQUEST in ("full", "copyright-only", "two-years", "case-twin", "terminator-inside", "verbatim-notice") else set())
     want_l = set(before[1]) | ({NEW_L} if REQUEST in ("full", "licence-only", "case-twin", "terminator-inside") else set())
     want_f = set(before[2]) | ({NEW_F} if REQUEST in ("full", "contributor-only", "case-twin") else set())
     if MERGE:
@@ -393,7 +396,7 @@ def keep_story(k0, k1, k2, k3, final_nl):
     def block_problem(inserted):
         """None if `inserted` is exactly one header block of the file's style holding the new information."""
         info = read("\n".join(inserted))
-        marker_ok = info is not None and ((NEW_C in info[0]) if REQUEST in ("full", "copyright-only", "two-years", "case-twin", "terminator-inside") else (NEW_L in info[1]) if REQUEST == "licence-only" else (NEW_F in info[2]))
+        marker_ok = info is not None and ((NEW_C in info[0]) if REQUEST in ("full", "copyright-only", "two-years", "case-twin", "terminator-inside", "verbatim-notice") else (NEW_L in info[1]) if REQUEST == "licence-only" else (NEW_F in info[2]))
         if not marker_ok:
             return "the inserted block is not the new header", {"inserted": inserted[:6]}
         if STYLE is not cm.EmptyCommentStyle:
@@ -692,7 +695,7 @@ def fileread_story(k0, k1, e, final_nl, bom):
     except Exception as exc:  # noqa
         return "the linter cannot read the file annotate wrote: " + type(exc).__name__, items, raw, got, None
     seen = (sorted(info.copyright_lines), sorted(str(x) for x in info.spdx_expressions), sorted(info.contributor_lines))
-    if REQUEST in ("full", "copyright-only", "two-years", "case-twin", "terminator-inside") and NEW_C not in info.copyright_lines:
+    if REQUEST in ("full", "copyright-only", "two-years", "case-twin", "terminator-inside", "verbatim-notice") and NEW_C not in info.copyright_lines:
         return "the requested copyright notice is not read back from the written file", items, raw, got, seen
     if REQUEST in ("full", "licence-only", "case-twin", "terminator-inside") and NEW_L not in seen[1]:
         return "the requested licence is not read back from the written file", items, raw, got, seen
